@@ -268,7 +268,7 @@ func record(name string, w *kmfx.World, op func() error) (history, error) {
 
 func main() {
 	r := mc.NewRun("C11")
-	r.Rule("E4: write logs of bootstrap-on-empty, rotation 1, rotation 2, of the same operations with each single object write failing, and of a rotation refused because its certificate object exists, (thorough: also a rotation retried with --overwrite after a crash that left an orphan certificate) recorded from the real code; every permutation of each run of certificate uploads x every prefix => crash store; each reloaded (raw read-back, fresh gcsca, and on local disk through localca's start-up check); states = distinct crash stores; non-trivial = crash stores that are neither the pre-state nor the final state")
+	r.Rule("E4: write logs of bootstrap-on-empty, rotation 1, rotation 2, of the same operations with each single object write failing, and of a rotation refused because its certificate object exists, of bootstrap-on-empty and rotation under --overwrite / --keep_going / both, of a rotation retried with --overwrite after a crash that left an orphan certificate, of a one-process history across a wipeout, recorded from the real code; plus one long history (Cloud KMS world, rotations until the manifest is past 80 KiB) judged at every crash point in recorded order; every permutation of each run of certificate uploads x every prefix => crash store; each reloaded (raw read-back, fresh gcsca, and on local disk through localca's start-up check); states = distinct crash stores; non-trivial = crash stores that are neither the pre-state nor the final state")
 	r.Assume("object granularity: a write is atomic and durable when the writer is closed (as the property states); torn single objects are out of scope")
 	defer kmfx.Cleanup()
 	t0 := fx.T0
